@@ -258,6 +258,15 @@ def specReduceElem {α : Type} (op : α → α → α) (init : Option α) (a : A
     (j : Idx) : Option α :=
   foldFirst op init ((addressed a.shape R keep j).map a.get)
 
+/-- NumPy `var(a, axis, ddof, keepdims)[j]`: with `G` the addressed elements, `μ = (Σ G) / |G|`,
+    `(Σ_{x ∈ G} |x - μ|²) / (|G| - ddof)`; abstract element operations -/
+def specVarElem {α : Type} (add sub : α → α → α) (sqabs : α → α) (divn : α → Nat → α) (a : Arr α) (R : List Nat)
+    (keep : Bool) (ddof : Nat) (j : Idx) : Option α :=
+  let G := addressed a.shape R keep j
+  (foldFirst add none (G.map a.get)).bind (fun S =>
+    (foldFirst add none (G.map (fun i => sqabs (sub (a.get i) (divn S G.length))))).map
+      (fun x => divn x (G.length - ddof)))
+
 /-- the source multi-indices feeding `accumulate(a, ax)[d]`: `d` with coordinate `ax` running over `0..d[ax]` -/
 def accumAddressed (ax : Nat) (d : Idx) : Option (List Idx) :=
   match d[ax]? with
@@ -269,6 +278,38 @@ def specAccumElem {α : Type} (op : α → α → α) (a : Arr α) (ax : Nat) (d
   match accumAddressed ax d with
   | none => none
   | some l => foldFirst op none (l.map a.get)
+
+/-! ## var / stddev: compositions that use the broadcasting index map (stated with `proj`) -/
+
+/-- binary op on possibly-undefined operands (an undefined operand makes the result undefined) -/
+def optOp {α : Type} (f : α → α → α) : Option α → Option α → Option α
+  | some x, some y => some (f x y)
+  | _, _ => none
+
+/-- `view::var(array, axis, dtype, ddof, keepdims)` over abstract element operations:
+    `a = mean(input, m_axis, dtype, True)`, `d = square(fabs(subtract(input, a)))`,
+    `e = sum(d, m_axis, dtype, None, keepdims)`, `divide(e, mean_divisor(shape, m_axis) - ddof)`.
+    `subtract(input, a)` broadcasts the keepdims mean against the input: the element at `i` reads the mean at `i`
+    with every reduced coordinate set to 0 (that is what C06 proves of broadcast_to); `sqabs x = |x|²`. -/
+def var {α : Type} (add sub : α → α → α) (sqabs : α → α) (divn : α → Nat → α) (a : Arr α) (axis : AxisArg)
+    (ddof : Nat) (keep : Bool) : Option (Arr (Option α)) :=
+  match unwrapAxes a.shape.length axis with
+  | none => none
+  | some ax =>
+    let axis' : AxisArg := ax.map (fun l => l.map Int.ofNat)
+    match mean add divn a axis' true, meanDivisor a.shape ax with
+    | some m, some n =>
+      let d : Arr (Option α) :=
+        ⟨a.shape, fun i => (m.get (proj (axisSet a.shape.length axis') true i)).map (fun mu => sqabs (sub (a.get i) mu))⟩
+      match reduce (optOp add) none d axis' keep with
+      | none => none
+      | some e => some ⟨e.shape, fun j => ((e.get j).join).map (fun x => divn x (n - ddof))⟩
+    | _, _ => none
+
+/-- `view::stddev` = `sqrt(var(…))` -/
+def stddev {α : Type} (add sub : α → α → α) (sqabs sqrt : α → α) (divn : α → Nat → α) (a : Arr α) (axis : AxisArg)
+    (ddof : Nat) (keep : Bool) : Option (Arr (Option α)) :=
+  (var add sub sqabs divn a axis ddof keep).map (fun v => ⟨v.shape, fun j => (v.get j).map sqrt⟩)
 
 /-! ## executable helpers for the driver -/
 
